@@ -389,6 +389,24 @@ func (h *Handler) Close() error {
 	return nil
 }
 
+// ClosePeerSessions removes every session that was opened on behalf of the given
+// peer (called when that peer disconnects). Returns the number removed.
+func (h *Handler) ClosePeerSessions(peerID identity.AgentID) int {
+	h.mu.RLock()
+	var ids []uint64
+	for id, session := range h.sessions {
+		if session.PeerID == peerID {
+			ids = append(ids, id)
+		}
+	}
+	h.mu.RUnlock()
+
+	for _, id := range ids {
+		h.removeSession(id)
+	}
+	return len(ids)
+}
+
 // removeSession removes a session and cleans up resources.
 func (h *Handler) removeSession(streamID uint64) {
 	h.mu.Lock()
